@@ -75,6 +75,8 @@ def family_map(env, name, N, family):
             g, p = ref_compose(g, p, tg, tp)
         return g, p, True
     if family.startswith('fixed:'):
+        if family not in FIXED:                       # a replay process starts with an empty table cache
+            FIXED[family] = symplectic_tables(2)[int(family[6:])]
         tab = FIXED[family]
         p = env.signs(name + '_sign', (2 * N,))
         return oarr(tab), p, True
